@@ -172,7 +172,7 @@ def h04_sound(p0: int, p1: int, q0: int, q1: int, f0: bool, f1: bool, f2: bool, 
     A, B = M.to_value(ta), M.to_value(tb)
     ctx = get_checker()
     acc = _ok(A.can_assign(B, ctx))
-    if excluded(akind=ta[0], bkind=M.core_kind(tb), accepted=acc, p0=p0, q1=q1):
+    if excluded(akind=M.core_kind(ta), bkind=M.core_kind(tb), accepted=acc, p0=p0, q1=q1):
         return skip()
     # reflexivity on the real constructors
     if not _ok(A.can_assign(A, ctx)) or not _ok(B.can_assign(B, ctx)):
